@@ -18,6 +18,18 @@ CHECKS = {
              'numeric signature (Python float ops and JS number ops are the same IEEE-754 operations); str.lower vs '
              'toLowerCase agreement on ASCII images (swept every run). Browser rendering not modelled.',
         technique='Rocq proof over source-translated models + differential tie'),
+    'C06': dict(
+        category='proof',
+        text='classification.py is translated to Gallina on every run; C06/Props.v proves, for all transaction lists, the '
+             'one-bucket decision table, conservation of |amount| across the six totals, the cash-flow / net-transfer '
+             'formulas, agreement of per-merchant / per-category / per-month sums and counts, and invariance under every '
+             'permutation and every partition of the list. The hand model of the accumulation pass is tied to '
+             'analyze_transactions by a vm_compute correspondence; the same laws are evaluated on implementation outputs.',
+        design_ref='DESIGN.md §4 C06',
+        note='Trusted: Coq kernel/vm_compute; tools/py2coq.py; harness/c06.py generators and comparison. Money is exact '
+             '(integer ticks): float rounding of sums is outside the model; generated amounts are dyadic so the '
+             'implementation is compared exactly. analyze_transactions fold is modelled by hand.',
+        technique='Rocq proof (induction over the transaction list) + translated leaf code + correspondence'),
 }
 
 PENDING = {}
